@@ -18,12 +18,18 @@ class Budget(BaseException):
     pass
 
 
+_ABSTRACT_MEMO = {}
+import random as _random
+_SAMPLER = _random.Random(12345)
+import os as _os
+_TRACE = bool(_os.environ.get('VERIF_TRACE'))
 QUERY_TIMEOUT_MS = 60000
 BRANCH_TIMEOUT_MS = 20000
 
 
 class Ctx:
     cur = None
+    default_sample_inputs = None   # harness may set: dict name -> z3 input variable (enables sampling in feasible())
 
     def __init__(self, prefix=()):
         self.decisions = list(prefix)
@@ -40,6 +46,9 @@ class Ctx:
         self.div_zero = []     # (pc-index, denominator term) of divisions whose zero branch is open
         self.notes = {}
         self.decided = {}
+        self.sample_inputs = Ctx.default_sample_inputs
+        self.witness = None     # concrete input values known to satisfy side /\ pc so far (dict name -> Fraction)
+        self.witness_tried = False
         self.defs = {}         # names of auxiliary variables introduced by definitional side constraints
 
     # -- variables -------------------------------------------------------------------------
@@ -64,33 +73,91 @@ class Ctx:
         r = str(s.check())
         self.solver_time += time.time() - t
         self.queries += 1
+        if _TRACE and time.time() - t > 1:
+            import sys
+            print('[trace] query %.1fs -> %s (pc=%d side=%d extra=%s)' % (time.time() - t, r, len(self.pc), len(self.side),
+                                                                       str(extra[-1])[:100] if extra else ''), file=sys.stderr, flush=True)
         if r == 'unknown':
             self.inconclusive += 1
         if want_model:
             return r, (s.model() if r == 'sat' else None)
         return r
 
+    def _witness_constraints(self):
+        out = []
+        for k, v in self.sample_inputs.items():
+            if k in self.witness:
+                val = self.witness[k]
+                out.append(v == (int(val) if z3.is_int(v) else realval(val)))
+        return out
+
+    def _witness_from_model(self, m):
+        if not self.sample_inputs or m is None:
+            return None
+        w = {}
+        try:
+            for k, v in self.sample_inputs.items():
+                r = m.eval(v, model_completion=True)
+                if z3.is_rational_value(r):
+                    w[k] = fractions.Fraction(r.numerator_as_long(), r.denominator_as_long())
+                elif z3.is_int_value(r):
+                    w[k] = fractions.Fraction(r.as_long())
+                else:
+                    return None      # algebraic input value: no exact witness
+        except Exception:
+            return None
+        return w
+
+    def _eval_under_witness(self, cond):
+        """Truth value of cond under the concrete witness (all inputs fixed => the query is an evaluation)."""
+        if not self.sample_inputs:
+            return None
+        if self.witness is None:
+            if self.witness_tried:
+                return None
+            self.witness_tried = True
+            r, m = self._check([], BRANCH_TIMEOUT_MS, want_model=True)
+            self.witness = self._witness_from_model(m) if r == 'sat' else None
+            if self.witness is None:
+                return None
+        fix = self._witness_constraints()
+        r = self._check([cond] + fix, 4000)
+        if r == 'sat':
+            return True
+        if r == 'unsat':
+            if self._check([z3.Not(cond)] + fix, 4000) == 'sat':
+                return False
+            self.witness = None      # the witness no longer satisfies side /\ pc (e.g. a later assumption): drop it
+            self.witness_tried = False
+        return None
+
     def feasible(self, cond, upto=None):
         return self._check([cond], BRANCH_TIMEOUT_MS, upto=upto)
 
     def branch(self, cond):
-        """cond: z3 Bool.  Returns a python bool and records the decision."""
-        cond = z3.simplify(cond)
-        if z3.is_true(cond):
+        """cond: z3 Bool.  Returns a python bool and records the decision.  The raw (unsimplified)
+        condition is what enters the path condition, so that sub-terms stay intact for
+        let-abstraction by substitution."""
+        simp = z3.simplify(cond)
+        if z3.is_true(simp):
             return True
-        if z3.is_false(cond):
+        if z3.is_false(simp):
             return False
-        key = cond.sexpr()
+        key = simp.sexpr()
         if key in self.decided:
             return self.decided[key]
         if self.pos < len(self.decisions):
             d = self.decisions[self.pos]
         else:
-            rt = self.feasible(cond)
-            if rt == 'unsat':
-                d = False
+            ev = self._eval_under_witness(cond)
+            if ev is not None:
+                d = ev                 # follow the witness: this side is feasible by construction
             else:
-                d = True
+                rt = self.feasible(cond)
+                if rt == 'unsat':
+                    d = False
+                else:
+                    d = True
             self.decisions.append(d)
         self.pos += 1
         self.pc.append(cond if d else z3.Not(cond))
@@ -111,6 +178,25 @@ class Ctx:
         r, m = self._check(list(extra_hyp) + [z3.Not(claim)], timeout_ms or QUERY_TIMEOUT_MS, want_model=True)
         return r, round(time.time() - t, 3), m
 
+    def prove_from_pc(self, claim, timeout_ms=None, extra_hyp=()):
+        """Is `claim` a consequence of the branch decisions alone (side constraints dropped: fewer
+        hypotheses, sound for unsat)?  For claims that restate what the code decided."""
+        if isinstance(claim, SymBool):
+            claim = claim.e
+        t = time.time()
+        s = z3.Solver()
+        s.set('timeout', int(timeout_ms or QUERY_TIMEOUT_MS))
+        s.add(*self.pc)
+        s.add(*extra_hyp)
+        s.add(z3.Not(claim))
+        r = str(s.check())
+        self.solver_time += time.time() - t
+        self.queries += 1
+        if r == 'unsat':
+            return r, round(time.time() - t, 3), None
+        r2, secs2, m = self.prove(claim, timeout_ms, extra_hyp=extra_hyp)
+        return r2, round(time.time() - t, 3), m
+
     def prove_abstracted(self, claim, subst, lemmas, timeout_ms=None, fallback_hyp=None, drop_prefixes=()):
         """Let-abstraction (DESIGN 2.3 rule 4): replace the sub-terms subst=[(term, fresh_var)...]
         everywhere in side, pc and claim, add `lemmas` (facts about the fresh variables that were
@@ -130,16 +216,29 @@ class Ctx:
                     t = z3.substitute(t, *ps)
             return t
         hyps = [sub(h) for h in self.side + self.pc] + [sub(l) for l in lemmas]
+        # a replaced term that is a numeral (e.g. the constant frame vector of the z-aligned branch) cannot be
+        # substituted away: tie its fresh variable to the value instead
+        hyps += [b == a for ps in passes for a, b in ps if (z3.is_rational_value(a) or z3.is_int_value(a))]
         goal = z3.Not(sub(claim))
         if drop_prefixes:
             gv = term_vars(goal)
             hyps = [h for h in hyps if not any(v.startswith(tuple(drop_prefixes)) and v not in gv for v in term_vars(h))]
-        for h in cone_of_influence(goal, hyps, set(self.defs)):
-            s.add(h)
-        s.add(goal)
-        r = str(s.check())
-        self.solver_time += time.time() - t
-        self.queries += 1
+        used = cone_of_influence(goal, hyps, set(self.defs))
+        # identical abstracted queries (same text) are decided once per process
+        import hashlib
+        key = hashlib.sha256(('\n'.join(sorted(h.sexpr() for h in used)) + '\n==>' + goal.sexpr()).encode()).hexdigest()
+        if key in _ABSTRACT_MEMO:
+            r = _ABSTRACT_MEMO[key]
+            self.memo_hits = getattr(self, 'memo_hits', 0) + 1
+        else:
+            for h in used:
+                s.add(h)
+            s.add(goal)
+            r = str(s.check())
+            self.solver_time += time.time() - t
+            self.queries += 1
+            if r != 'unknown':
+                _ABSTRACT_MEMO[key] = r
         if r == 'unsat':
             return r, round(time.time() - t, 3), None
         if fallback_hyp is None:
@@ -174,11 +273,12 @@ class Ctx:
 
 def explore(fn, max_paths=2000, on_abort=None):
     """Enumerate the paths of fn() by re-execution.  Yields (ctx, result, aborted_exception)."""
-    stack = [[]]
+    stack = [([], None)]
     n = 0
     while stack:
-        prefix = stack.pop()
+        prefix, wit0 = stack.pop()
         ctx = Ctx(prefix)
+        ctx.witness = wit0
         Ctx.cur = ctx
         exc = None
         res = None
@@ -191,9 +291,9 @@ def explore(fn, max_paths=2000, on_abort=None):
             if i >= len(ctx.pc):
                 break
             alt = ctx.decisions[:i] + [not ctx.decisions[i]]
-            r = ctx.feasible(z3.Not(ctx.pc[i]), upto=i)
+            r, m = ctx._check([z3.Not(ctx.pc[i])], BRANCH_TIMEOUT_MS, want_model=True, upto=i)
             if r != 'unsat':
-                stack.append(alt)
+                stack.append((alt, ctx._witness_from_model(m) if r == 'sat' else None))
         yield ctx, res, exc
         if n >= max_paths and stack:
             raise Budget('path budget %d exhausted with %d pending' % (max_paths, len(stack)))
@@ -393,22 +493,15 @@ class SymReal:
         for (k0, e0, r0) in c.sqrts:
             if k0 == key:
                 return SymReal(r0)
-        for (k0, e0, r0) in c.sqrts:
-            s = z3.Solver()
-            s.set('timeout', 5000)
-            s.add(*c.side)
-            s.add(*c.pc)
-            s.add(e0 != se)
-            t = time.time()
-            rr = str(s.check())
-            c.solver_time += time.time() - t
-            c.queries += 1
-            if rr == 'unsat':
-                return SymReal(r0)
         r = c.freshvar('sqrt')
         # raw (unsimplified) radicand: keeps sub-terms intact for let-abstraction by substitution
         c.side += [r >= 0, r * r == self.e]
         c.defs[r.decl().name()] = self.e      # raw radicand of this sqrt variable
+        fs = radicand_factors(c, r)
+        if fs:
+            # redundant consequence (a sum of squares vanishes iff every term does): spares the solver a
+            # nonlinear argument when it prunes the 'norm == 0' sibling of a normalisation
+            c.side.append((r == 0) == z3.And(*[f == 0 for f in fs]))
         c.sqrts.append((key, se, r))
         return SymReal(r)
 
